@@ -1340,6 +1340,9 @@ impl<'a> CompilerState<'a> {
                     let mut start = 0;
                     let mut var_const = var_const_ex;
                     let mut set_const = set_const_ex;
+                    // Each declarator starts from the declared memory class: what its own
+                    // definition implies (ROM table, address beyond page zero) is its own
+                    let mut memory = memory;
                     for p in pair.into_inner() {
                         match p.as_rule() {
                             Rule::pointer => {
